@@ -269,8 +269,16 @@ def obligations(ctx, F, inv_ok):
                 found["image"] = sorted(x for x in img if x is not None)
             elif prov[0] == "cast-from" and prov[1] == "u8":
                 rule, ok = "U8", ln is not None and ln >= 256
-            else:
-                rule = "no-rule"
+            if not ok:
+                # fall back to the interval analysis (S4) on the index operand
+                from . import ranges
+                ra = ranges.Analysis(fn).run()
+                iv = ra.args_at_call(bi)
+                found["index interval"] = iv[1] if len(iv) > 1 else None
+                if len(iv) > 1 and iv[1] is not None and ln is not None and 0 <= iv[1][0] and iv[1][1] < ln:
+                    rule, ok = "RNG", True
+                elif rule == "?":
+                    rule = "no-rule"
         elif short == "new_unsafe":
             rule, ok, found = row_obligation(fn, t, F, D, inv_ok)
         elif short == "add_unsafe":
